@@ -1,3 +1,5 @@
 SPECIFICATION TraceSpec
-CONSTANT ModelChecks = FALSE
+CONSTANTS
+  ModelChecks = FALSE
+  TolerateOps = {}
 CHECK_DEADLOCK FALSE
